@@ -4,20 +4,22 @@ package main
 // generation reaches rarely (found by reading the code and by reviewing seeded faults). They are
 // appended to every executed corpus; capabilities of the target format prune what it cannot express.
 
-func st(fields ...*amField) *amType { return &amType{K: "struct", Fields: fields, MinLen: -1, MaxLen: -1} }
+func st(fields ...*amField) *amType {
+	return &amType{K: "struct", Fields: fields, MinLen: -1, MaxLen: -1}
+}
 func fld(name string, req bool, t *amType) *amField {
 	return &amField{Name: name, Required: req, T: t}
 }
-func ty(k string) *amType                 { return &amType{K: k, MinLen: -1, MaxLen: -1} }
-func tyw(k, w string) *amType             { return &amType{K: k, Width: w, MinLen: -1, MaxLen: -1} }
-func arr(e *amType) *amType               { return &amType{K: "array", Elem: e, MinLen: -1, MaxLen: -1} }
-func mp(e *amType) *amType                { return &amType{K: "map", Elem: e, MinLen: -1, MaxLen: -1} }
-func rf(name string) *amType              { return &amType{K: "ref", Ref: name, MinLen: -1, MaxLen: -1} }
-func nullable(t *amType) *amType          { c := *t; c.Nullable = true; return &c }
+func ty(k string) *amType                  { return &amType{K: k, MinLen: -1, MaxLen: -1} }
+func tyw(k, w string) *amType              { return &amType{K: k, Width: w, MinLen: -1, MaxLen: -1} }
+func arr(e *amType) *amType                { return &amType{K: "array", Elem: e, MinLen: -1, MaxLen: -1} }
+func mp(e *amType) *amType                 { return &amType{K: "map", Elem: e, MinLen: -1, MaxLen: -1} }
+func rf(name string) *amType               { return &amType{K: "ref", Ref: name, MinLen: -1, MaxLen: -1} }
+func nullable(t *amType) *amType           { c := *t; c.Nullable = true; return &c }
 func withDefault(t *amType, d any) *amType { c := *t; c.Default = d; return &c }
-func un(br ...*amType) *amType            { return &amType{K: "union", Branches: br, MinLen: -1, MaxLen: -1} }
-func enumS(vs ...string) *amType          { return &amType{K: "enum", EnumS: vs, MinLen: -1, MaxLen: -1} }
-func konst(v any) *amType                 { return &amType{K: "const", Const: v, MinLen: -1, MaxLen: -1} }
+func un(br ...*amType) *amType             { return &amType{K: "union", Branches: br, MinLen: -1, MaxLen: -1} }
+func enumS(vs ...string) *amType           { return &amType{K: "enum", EnumS: vs, MinLen: -1, MaxLen: -1} }
+func konst(v any) *amType                  { return &amType{K: "const", Const: v, MinLen: -1, MaxLen: -1} }
 func bounded(t *amType, lo, hi float64) *amType {
 	c := *t
 	c.Lo, c.Hi = &amBound{V: lo}, &amBound{V: hi}
@@ -28,7 +30,9 @@ func strLen(lo, hi int) *amType { return &amType{K: "string", MinLen: lo, MaxLen
 func aimedAMs(caps amCaps) []*amSchema {
 	intW := pickWidthDefault(caps.IntWidths, "int64")
 	fltW := pickWidthDefault(caps.FloatWidths, "float64")
-	mk := func(objs ...*amObject) *amSchema { return &amSchema{Pkg: "pk", Objs: objs, Tags: map[string]int{"aimed": 1}} }
+	mk := func(objs ...*amObject) *amSchema {
+		return &amSchema{Pkg: "pk", Objs: objs, Tags: map[string]int{"aimed": 1}}
+	}
 	var out []*amSchema
 
 	// 1. the same scalar union (with and without null) used several times, required and optional
